@@ -25,7 +25,8 @@ RULE = ("world = seeded paragraph(s) with 2..5 fields, 1..3 of them list fields 
         "trace = seeded interleaving (<= 30 steps) of open / append / remove / replace / "
         "reference-set / reference-remove / commit / abort over views on different fields, "
         "incl. edits that must be refused; an evaluation is one run; distinct = distinct "
-        "(view, op) sequence hash; non-trivial = at least one changed view was committed")
+        "(view, op) sequence hash; non-trivial = at least one changed view was committed"
+        '; later additions: two clients on the same field, views entered again after commit or abort, held and mid-session references across sessions, suspended reference iterators, another client adding / moving fields, same-named list fields in a second paragraph (some byte-identical), scripted two-session scenarios')
 REAL = ["debian._deb822_repro.parsing (ListInterpretation, Deb822ParsedTokenList, "
         "ValueReference, _update_field), tokens.py (whitespace_split_tokenizer, "
         "comma_split_tokenizer), _util.py (len_check_iterator, BufferingIterator)"]
